@@ -350,7 +350,7 @@ func downsampleStreams(c *run.Ctx, s *kit.Summary, r *kit.Rng) {
 			threshold = count - 1 - r.Pick(min(count-4, 50))
 		}
 		if r.Chance(0.15) { // beyond the 2^50 bound of theorem buckets_ok
-			count = int(r.Range(1<<50+1, 1<<62))
+			count = int(r.Range(1<<50+1, 1<<uint(51+r.Pick(12))))
 			threshold = int(r.Range(3, 1500))
 		}
 		if threshold < 3 || threshold >= count {
@@ -358,13 +358,17 @@ func downsampleStreams(c *run.Ctx, s *kit.Summary, r *kit.Rng) {
 		}
 		ok := goBucketsOK(count, threshold)
 		bk.Add(fmt.Sprintf("c17.bucketsok %d %d", count, threshold), "ok "+kit.B(ok))
-		if count > 1<<50 {
-			s.Count("bucketsok_only:beyond_2^50:" + kit.B(ok))
+		if count > 1<<53 {
+			s.Count("bucketsok_only:count>2^53:" + kit.B(ok))
+		} else if count > 1<<50 {
+			s.Count("bucketsok_only:2^50<count<=2^53:" + kit.B(ok))
 		} else {
 			s.Count("bucketsok_only:" + kit.B(ok))
 		}
-		if !ok {
+		if !ok && count <= 1<<50 {
 			s.Extra["bucketsok_false"] = fmt.Sprintf("count=%d threshold=%d", count, threshold)
+		} else if !ok {
+			s.Extra["bucketsok_false_beyond_2^50"] = fmt.Sprintf("count=%d threshold=%d", count, threshold)
 		}
 	}
 	flush(c, s, st, true)
